@@ -183,9 +183,11 @@ def specs(r):  # noqa: F811
         qs.append(("spec eq 0 1", {"what": "overlapping callers: deadlock or a thread died", "detail": out.get("deadlock") or out.get("error")}))
         return qs
     stops = {int(k): v for k, v in (out.get("stops") or {}).items()}
-    for (k, due) in out.get("inv_dues") or []:
-        if due is not None and stops.get(k) is not None:
-            qs.append((f"spec le {due} {stops[k]}", {"what": "overlapping callers: every invocation belongs to a due time <= stop", "key": k, "due": due, "stop": stops[k]}))
+    # an invocation whose worker took the job's execution lock only after another caller's rescheduling had moved the due
+    # time past the stop (and so retired the job) is an execution planned outside the window
+    for (k, due, stop) in out.get("invoked_after_retirement") or []:
+        qs.append((f"spec le {due} {stop}", {"what": "overlapping callers: invoked after the job had been retired by its stop", "key": k, "due": due, "stop": stop}))
+    qs.append(("spec eq 0 0", {"what": "overlapping callers: evaluated"}))
     for k, v in (out.get("jobs") or {}).items():
         if stops.get(k) is not None and k in (out.get("final") or []):
             qs.append((f"spec le {v[4]} {stops[k]}", {"what": "overlapping callers: a registered job's due time is <= stop", "key": k}))
